@@ -55,6 +55,16 @@ RefTx(pre, e, post) ==
     LET m == Tx(pre, e.op) IN
     /\ Dev(m.res.ok = e.res.ok, "tx-outcome")
     /\ Dev((m.res.ok /\ e.res.ok) => SameObserved(m.w, post), "tx-world")
+    /\ Dev((m.res.ok /\ e.res.ok) =>
+               LET ms == SelectSeq(m.res.events, LAMBDA x : x.action = "swap")
+                   os == SelectSeq(e.res.events, LAMBDA x : x.action = "swap")
+               IN  /\ Len(ms) = Len(os)
+                   /\ \A i \in DOMAIN ms :
+                          /\ ms[i].contract = os[i].contract /\ ms[i].receiver = os[i].receiver
+                          /\ ms[i].offer_asset = os[i].offer_asset /\ ms[i].ask_asset = os[i].ask_asset
+                          /\ ms[i].offer_amount = os[i].offer_amount /\ ms[i].return_amount = os[i].return_amount
+                          /\ ms[i].spread_amount = os[i].spread_amount /\ ms[i].commission_amount = os[i].commission_amount,
+           "tx-swap-events")
     /\ Dev((~m.res.ok /\ ~e.res.ok /\ m.res.why \in SpecificWhy /\ e.res.why \in SpecificWhy) => m.res.why = e.res.why, "tx-why")
 
 PageOf(seq) == [i \in DOMAIN seq |-> seq[i].pair]
